@@ -343,6 +343,19 @@ func ruleC16(r *Report) {
 			continue
 		}
 		a := NewAnalysis(p)
+		// the exported constructor may be a shell over the unexported function that fills the claims in
+		ctor := fn
+		if len(litFields(fn, modPath+"/samlsp", "JWTSessionClaims")) == 0 {
+			var fillers []*ssa.Function
+			for _, h := range helperRegion(p, fn, 2) {
+				if h != fn && len(litFields(h, modPath+"/samlsp", "JWTSessionClaims")) > 0 {
+					fillers = append(fillers, h)
+				}
+			}
+			if len(fillers) == 1 {
+				fn = fillers[0]
+			}
+		}
 		fc := a.Ctx(fn)
 		fc.ensureConds()
 		r.Fn(p.FnName(fn))
@@ -356,7 +369,7 @@ func ruleC16(r *Report) {
 			}
 			// the claim is set for every token minted (a token without exp never expires: the decoder treats it as optional)
 			for _, ret := range fc.Returns() {
-				if len(ret.Results) == 2 && isNilConst(Resolve(ret.Results[1])) && !fc.Implied(ret.Block(), fc.Cond(sts[0].Block())) {
+				if (len(ret.Results) == 1 || len(ret.Results) == 2 && isNilConst(Resolve(ret.Results[1]))) && !fc.Implied(ret.Block(), fc.Cond(sts[0].Block())) {
 					r.Bad("C16.expiry", cons, p.InstrPos(sts[0]), "the claim is set on some paths only (e.g. not under "+firstCube(a.B, a.B.And(fc.Cond(ret.Block()), a.B.Not(fc.Cond(sts[0].Block()))))+"): a token minted without it is not bounded by the session lifetime")
 					return
 				}
@@ -392,7 +405,7 @@ func ruleC16(r *Report) {
 
 		// mapping: the constructor and the helpers it is split into, each seen with its parameters bound to the
 		// constructor's values
-		rg := NewRegion(p, fn, 3)
+		rg := NewRegion(p, ctor, 3)
 		for _, act := range rg.all {
 			mf := act.fn
 			fm := rg.Ctx(a, act)
@@ -459,10 +472,17 @@ func ruleC16(r *Report) {
 				}
 			}
 		}
+		fillAct := rg.top
+		for _, act := range rg.all {
+			if act.fn == fn {
+				fillAct = act
+				break
+			}
+		}
 		for _, st := range lf["StandardClaims.Subject"] {
 			okS := true
 			var srcs []string
-			for _, o := range rg.Origins(RV{V: st.Val, C: rg.top}) {
+			for _, o := range rg.Origins(RV{V: st.Val, C: fillAct}) {
 				if isEmptyStringConst(o.V) {
 					continue // no subject / no name identifier
 				}
@@ -572,6 +592,39 @@ func checkSessionGates(r *Report, p *Prog, rule string) {
 	fc := a.Ctx(gs)
 	fc.ensureConds()
 	r.Fn(p.FnName(gs))
+	// the exported method may be a shell that hands its request and its own fields to the function doing the work:
+	// that function, with its parameters bound to the shell's arguments
+	for i := 0; i < 2; i++ {
+		rets := fc.Returns()
+		if len(rets) != 1 || len(rets[0].Results) != 2 {
+			break
+		}
+		var call *ssa.Call
+		okShell := true
+		for k, rv := range rets[0].Results {
+			ex, isEx := rv.(*ssa.Extract)
+			if !isEx || ex.Index != k {
+				okShell = false
+				break
+			}
+			c, isC := ex.Tuple.(*ssa.Call)
+			if !isC || call != nil && c != call {
+				okShell = false
+				break
+			}
+			call = c
+		}
+		if !okShell || call == nil {
+			break
+		}
+		sc := call.Call.StaticCallee()
+		if sc == nil || !p.InLibrary(sc) || len(sc.Blocks) == 0 {
+			break
+		}
+		fc = fc.inlineCtx(sc, call.Call.Args, call)
+		fc.ensureConds()
+		r.Fn(p.FnName(sc))
+	}
 	for _, ret := range fc.Returns() {
 		_, fres := fc.forwardedResults(ret)
 		v := Resolve(fres[0])
@@ -1106,7 +1159,7 @@ func checkCookieFlags(r *Report, p *Prog, rule string) {
 	sdesc := ""
 	if len(lf2["Secure"]) == 1 {
 		sdesc = fc2.AP(lf2["Secure"][0].Val)
-		okS = strings.Contains(sdesc, "URL.Scheme") && strings.Contains(sdesc, `"https"`)
+		okS = strings.Contains(sdesc, "URL.Scheme") && strings.Contains(sdesc, `"https"`) && !strings.Contains(sdesc, "||") && !strings.Contains(sdesc, "!=")
 	}
 	r.Check(okS, rule, p.FnName(dp)+": default session provider sets Secure on https deployments", p.Pos(dp.Pos()), sdesc, "Secure default is "+sdesc)
 	// tracking cookie
@@ -1128,7 +1181,7 @@ func checkCookieFlags(r *Report, p *Prog, rule string) {
 		return ""
 	}
 	sec, path, name := get("Secure"), get("Path"), get("Name")
-	r.Check(strings.Contains(sec, "AcsURL.Scheme") && strings.Contains(sec, `"https"`), rule, p.FnName(tr)+": tracking cookie Secure on https ACS", p.Pos(tr.Pos()), sec, "Secure is "+sec)
+	r.Check(strings.Contains(sec, "AcsURL.Scheme") && strings.Contains(sec, `"https"`) && !strings.Contains(sec, "||") && !strings.Contains(sec, "!="), rule, p.FnName(tr)+": tracking cookie Secure on https ACS", p.Pos(tr.Pos()), sec, "Secure is "+sec)
 	r.Check(strings.HasSuffix(path, "AcsURL.Path"), rule, p.FnName(tr)+": tracking cookie scoped to the ACS path", p.Pos(tr.Pos()), path, "Path is "+path)
 	// the name is the prefix followed by the index that is signed into the cookie's value: the Index field of the
 	// encoded record, or the very value stored into that field
@@ -1214,7 +1267,16 @@ func checkLifetime(r *Report, p *Prog, rule string) {
 	}
 	v := lf["ExpiresAt"][0].Val
 	home := lf["ExpiresAt"][0].Parent()
-	vfc, vv := a.Ctx(home).valueOfPureCall(v)
+	hfc := a.Ctx(home)
+	if home != enc {
+		// the claims are built by a constructor helper: seen with its parameters bound to what the encoder hands it
+		for _, ci := range callsTo(enc, home.String()) {
+			if c, isCall := ci.(*ssa.Call); isCall {
+				hfc = a.Ctx(enc).inlineCtx(home, c.Call.Args, c)
+			}
+		}
+	}
+	vfc, vv := hfc.valueOfPureCall(v)
 	if c, ok := vv.(*ssa.Call); ok && c.Call.StaticCallee() != nil && strings.HasSuffix(c.Call.StaticCallee().String(), "NewNumericDate") {
 		tt := vfc.TimeTermOf(c.Call.Args[0])
 		base := outOfLiteral(tt.BaseV)
